@@ -77,6 +77,21 @@ What is compared on every run (both views, stoichiometry on/off, node keys kind 
    get different canonical graphs (A>>B, B>>A vs B>>A, A>>B under edge_attr_keys=("stoich_r_map",)).  Only the kernel gate "isomorphic views
    receive different canonical graphs" under a configuration with a dict-valued key carries the class; every other gate stays unclassified.
 
+10. *sizes beyond CPython's small-int cache* (streams `big`, `beyond-small-int-cache`; ints -5..256 are shared objects, `is` and `==` on ints
+   differ only above): (a) views of 258..266 nodes (one family of twice that size in the thorough tier), string and integer node ids, with a
+   PLANTED symmetry group: a linear pathway ending in k interchangeable products (S_k), a pathway with twin side products at several steps
+   (Z2^t), two identical chains on one hub (Z2, moves every node but the hub), a hub with chains of pairwise different lengths and one or two
+   repeated lengths (refinement depth ~ 20 instead of ~ 260), a hub with spokes of pairwise different coefficients 200, 201, ... and k spokes of
+   one coefficient; each with renamed / reordered / re-identified copies and a one-coefficient near miss.  The enumerating Lean engine does not
+   answer on such views (crn.analyse / crn.iso: 30 s at 42 nodes; crn.ir: > 300 s at 264), so Lean only CHECKS certificates there:
+   `crn.view` (the back-end's graph is the model's view), `crn.checkMaps` (every planted generator is a structure-preserving self-map; a sample of
+   the reported mappings; the planted bijection between two family members), `crn.canonBy` (canonical_perm is an order of the nodes and the
+   canonical graph is the view relabelled along it).  Lower bounds from the planted group (count >= its order, planted classes inside orbits), upper
+   bounds from colour refinement of the model's view along a stabiliser chain (harness side: count <= U, orbits inside root cells); they meet on
+   every generated family, so count, mapping set and orbit partition are determined; reported orbits must partition the nodes in any case.
+   (b) small views, full model: networks with 720 automorphisms (positions in the list of least-label leaves / VF2 mappings beyond 256) and random
+   networks with coefficients 257 / 300 / 1000 / 65536 / 10**12, equal coefficients being different int objects.
+
 A network in which a species label equals a reaction id is classified `species_label_is_edge_id`
 (finding F19: the un-prefixed string ids of the bipartite view collide; not with integer ids, where every gate applies).
 The network without species under an EMPTY node key list (F39: `_search` raised StopIteration, repaired in /repo 69924ec) is gated like any other.
@@ -2030,6 +2045,8 @@ def ir_inputs(ctx):
     XCFG = [c["name"] for c in CONFIGS_X]
     EVERY = ALL + XCFG + [c["name"] for c in CONFIGS_I if c["bip"]] + ["bip+stoich/no-keys", "bip-stoich/role-only/int-ids"]
     for case in load_regress():
+        if case.get("kind") == "big":  # large views: the model of the search does not answer in time there (certificates only, `evaluate_big`)
+            continue
         for net in case["nets"]:
             yield "regress", net, case.get("configs", ALL)
     for name, net in symmetric_families():
@@ -2105,6 +2122,627 @@ def stream_ir(ctx):
 
 
 
+# ---------------------------------------------------------------- large views with a planted symmetry group (certificates only)
+BIG_MIN_NODES = 258  # one more position than CPython's small-int cache holds (ints -5..256 are shared objects; `is` on ints differs from `==` only above)
+BIG_GROUP_CAP = 5040
+# no label among the node keys (labels are pairwise different: the planted group would be trivial) and only scalar-valued keys
+BIG_SPECIES_CFGS = ["species+stoich", "species-stoich", "species+stoich/int-ids"]
+BIG_BIP_CFGS = ["bip+stoich", "bip-stoich", "bip+stoich/keys-permuted", "bip+stoich/int-ids", "bip-stoich/int-ids", "bip-stoich/role-only/int-ids"]
+
+
+def _big_len(n_nodes, bip, extra_species, extra_rxns=0):
+    """Length L of a chain S0 >> S1 >> ... >> S(L-1) (L species, L-1 reactions) such that the view has >= n_nodes nodes."""
+    if not bip:
+        return max(2, n_nodes - extra_species)
+    return max(2, -(-(n_nodes - extra_species - extra_rxns + 1) // 2))
+
+
+def big_pathway(n_nodes, bip, k, pre="S"):
+    """S0 >> S1 >> ... >> S(L-1) >> P0 + ... + P(k-1): the automorphisms are the k! permutations of the end products."""
+    L = _big_len(n_nodes, bip, k, 1)
+    rxns = [rx([(f"{pre}{i:03d}", 1)], [(f"{pre}{i + 1:03d}", 1)]) for i in range(L - 1)]
+    rxns.append(rx([(f"{pre}{L - 1:03d}", 1)], [(f"P{j}", 1) for j in range(k)]))
+    return {"rxns": rxns}, [{f"P{j}": f"P{j + 1}", f"P{j + 1}": f"P{j}"} for j in range(k - 1)]
+
+
+def big_twins(n_nodes, bip, at_fracs, pre="S"):
+    """A linear pathway with a pair of interchangeable side products at a few steps (the group is Z2^t: several non-identity
+    automorphisms, each fixing almost every node)."""
+    t = len(at_fracs)
+    L = _big_len(n_nodes, bip, 2 * t, 0)
+    at = sorted({min(L - 3, max(0, int(f * (L - 1)))) for f in at_fracs})  # not at the last step: S(L-1) would be a third interchangeable end product
+    rxns, gens = [], []
+    for i in range(L - 1):
+        p = [(f"{pre}{i + 1:03d}", 1)]
+        if i in at:
+            p += [(f"T{i:03d}a", 1), (f"T{i:03d}b", 1)]
+            gens.append({f"T{i:03d}a": f"T{i:03d}b", f"T{i:03d}b": f"T{i:03d}a"})
+        rxns.append(rx([(f"{pre}{i:03d}", 1)], p))
+    return {"rxns": rxns}, gens
+
+
+def big_two_chains(n_nodes, bip):
+    """Two identical long chains hanging off one hub: one non-identity automorphism, which moves every node but the hub(s)."""
+    m = -(-(n_nodes - 1) // 2) if not bip else -(-n_nodes // 4)
+    rxns = [rx([("H", 1)], [("a000", 1), ("b000", 1)])]
+    for pre in "ab":
+        rxns += [rx([(f"{pre}{i:03d}", 1)], [(f"{pre}{i + 1:03d}", 1)]) for i in range(m - 1)]
+    return {"rxns": rxns}, [{**{f"a{i:03d}": f"b{i:03d}" for i in range(m)}, **{f"b{i:03d}": f"a{i:03d}" for i in range(m)}}]
+
+
+def big_broom(n_nodes, bip, dups):
+    """A hub with chains of pairwise different lengths 1..q, plus one further chain of length d for every d in `dups`: the refinement
+    separates everything within q rounds; the automorphisms exchange the two chains of equal length (group Z2^len(dups))."""
+    lens, q = [], 0
+    while 1 + sum(lens) * (2 if bip else 1) < n_nodes:
+        q += 1
+        lens = list(range(1, q + 1)) + [d for d in dups if d <= q]
+    rxns, gens, first = [], [], {}
+    for j, ln in enumerate(lens):
+        rxns.append(rx([("H", 1)], [(f"c{j:02d}x000", 1)]))
+        rxns += [rx([(f"c{j:02d}x{i:03d}", 1)], [(f"c{j:02d}x{i + 1:03d}", 1)]) for i in range(ln - 1)]
+        if ln in first:
+            a, b = first[ln], j
+            g = {}
+            for i in range(ln):
+                g[f"c{a:02d}x{i:03d}"], g[f"c{b:02d}x{i:03d}"] = f"c{b:02d}x{i:03d}", f"c{a:02d}x{i:03d}"
+            gens.append(g)
+        else:
+            first[ln] = j
+    return {"rxns": rxns}, gens
+
+
+def big_spokes(n_nodes, k, c0=200):
+    """Bipartite view, stoichiometry on: H >> c X_c for pairwise different coefficients c = c0, c0+1, ... (beyond 256) and k spokes
+    with one and the same coefficient (fresh int objects): the k! permutations of those.  Not for the species view (its refinement
+    does not read in-arc attributes: one cell of hundreds of nodes) and not without stoichiometry (all spokes exchangeable)."""
+    q = max(1, -(-(n_nodes - 1) // 2) - k)
+    rxns = [rx([("H", 1)], [(f"X{c:03d}", int(str(c)))]) for c in range(c0, c0 + q)]
+    rxns += [rx([("H", 1)], [(f"P{j}", int(str(c0 + q + 57)))]) for j in range(k)]
+    return {"rxns": rxns}, [{f"P{j}": f"P{j + 1}", f"P{j + 1}": f"P{j}"} for j in range(k - 1)]
+
+
+def rename_big(net, rnd):
+    """Same network up to species names (fresh names whose sorted order is unrelated to the old one), reaction order, order inside the
+    sides and reaction ids -> (network, {old label: new label})."""
+    sp = net_species(net)
+    nums = rnd.sample(range(10000), len(sp))
+    pre = rnd.choice(["q", "m", "Zz", "n"])
+    m = {s: f"{pre}{k:04d}" for s, k in zip(sp, nums)}
+    explicit = rnd.random() < 0.5
+    rxns = []
+    for k, r in enumerate(net["rxns"]):
+        r_side, p_side = [[m[s], c] for s, c in r["r"]], [[m[s], c] for s, c in r["p"]]
+        rnd.shuffle(r_side); rnd.shuffle(p_side)
+        rxns.append({"r": r_side, "p": p_side, "rule": r["rule"], "eid": ("e%dx%d" % (rnd.randrange(100), k)) if explicit else None})
+    rnd.shuffle(rxns)
+    return {"rxns": rxns, "isolated": []}, m
+
+
+def near_miss_big(net, rnd):
+    """One coefficient raised by one (visible with stoichiometry on only; the species map to the original is the identity)."""
+    c = json.loads(json.dumps(net))
+    r = rnd.choice(c["rxns"])
+    e = rnd.choice(r["r"] + r["p"])
+    e[1] += 1
+    return c
+
+
+def big_families(rnd, quick):
+    """Families for `evaluate_big`: {family, nets, maps, gens, configs, vf2, again}.  `gens`: species-level generators of the planted
+    group of nets[0] (label -> label, identity elsewhere); `maps[j]`: species map nets[0] -> nets[j].  The VF2 analyser is asked only
+    where it answers within seconds (on the broom it does not return within minutes; a time limit would make the run irreproducible)."""
+    def size():
+        return rnd.randint(BIG_MIN_NODES, BIG_MIN_NODES + 8)
+
+    def fam(name, made, cfgs, vf2, again=False, renamed=1, near=False):
+        net, gens = made
+        nets, maps = [net], [None]
+        for _ in range(renamed):
+            c, m = rename_big(net, rnd)
+            nets.append(c); maps.append(m)
+        if near:
+            nets.append(near_miss_big(net, rnd)); maps.append({})
+        return {"family": name, "nets": nets, "maps": maps, "gens": gens, "configs": cfgs, "vf2": vf2, "again": again}
+
+    S, B = BIG_SPECIES_CFGS, BIG_BIP_CFGS
+    BS = [c for c in B if CFG[c]["stoich"]]
+    out = []
+    if quick:
+        out.append(fam("pathway-2-end-products", big_pathway(size(), False, 2), [rnd.choice(S)], vf2=False, again=True))
+        out.append(fam("pathway-3-end-products", big_pathway(size(), True, 3), [rnd.choice(B)], vf2=True, near=True))
+        out.append(fam("twin-side-products", big_twins(size(), False, [rnd.random() for _ in range(3)]), [rnd.choice(S)], vf2=True))
+        out.append(fam("two-chains", big_two_chains(size(), True), [rnd.choice(B)], vf2=True))
+        out.append(fam("broom", big_broom(size(), True, [rnd.randint(2, 9)]), [rnd.choice([c for c in B if CFG[c].get("int")])], vf2=False, near=True))
+        out.append(fam("spokes-distinct-coefficients", big_spokes(size(), 2), [rnd.choice(BS)], vf2=False))
+        return out
+    for bip, cfgs in ((False, S), (True, B)):
+        for cn in cfgs:
+            out.append(fam("pathway-2-end-products", big_pathway(size(), bip, 2), [cn], vf2=True, again=True, renamed=2, near=True))
+            out.append(fam("pathway-3-end-products", big_pathway(size(), bip, 3, pre="u"), [cn], vf2=bip, renamed=1))
+            out.append(fam("twin-side-products", big_twins(size(), bip, [rnd.random() for _ in range(rnd.choice([2, 3, 4]))]), [cn], vf2=True, renamed=2, near=True))
+            out.append(fam("two-chains", big_two_chains(size(), bip), [cn], vf2=True, renamed=1, again=True))
+            out.append(fam("broom", big_broom(size(), bip, rnd.sample(range(2, 10), rnd.choice([1, 2]))), [cn], vf2=False, renamed=2, near=True))
+    for cn in BS:
+        out.append(fam("spokes-distinct-coefficients", big_spokes(size(), rnd.choice([2, 3])), [cn], vf2=True, renamed=2, near=True))
+    out.append(fam("pathway-2-end-products/twice-the-size", big_pathway(2 * BIG_MIN_NODES + 2, False, 2), ["species+stoich"], vf2=False))
+    return out
+
+
+def _kval(a, k):
+    x = a.get(k)
+    if k in SETLIKE and isinstance(x, dict) and "t" in x:
+        return {"t": sorted(x["t"], key=lambda z: json.dumps(z, sort_keys=True))}
+    return x
+
+
+def node_map(ma, mb, smap, bip, with_coef=True):
+    """The node bijection view(ma) -> view(mb) (model numbering: species i -> i, reaction j -> nS + j, both in sorted order) induced by the
+    species map `smap` (label -> label, identity where absent): reactions are paired by rule and mapped sides (any pairing inside a group
+    of reactions that agree in all of that names an isomorphism if one does).  None if the species map is no bijection of the label sets
+    or the reaction multisets do not correspond.  Only a CANDIDATE: Lean (`crn.checkMaps`) decides whether it preserves the structure."""
+    la, lb = ma["labels"], mb["labels"]
+    ib = {s: i for i, s in enumerate(lb)}
+    f = lambda s: smap.get(s, s)  # noqa: E731
+    if len(la) != len(lb) or any(f(s) not in ib for s in la) or len({f(s) for s in la}) != len(la):
+        return None
+    pairs = [[i, ib[f(s)]] for i, s in enumerate(la)]
+    if True:  # the reactions must correspond in either view (the species view is a function of them); their nodes are listed for the bipartite view only
+        def sig(m, q, g):
+            lab = m["labels"]
+            return json.dumps([q["rule"], sorted([g(lab[i]), c if with_coef else 0] for i, c in q["r"]), sorted([g(lab[i]), c if with_coef else 0] for i, c in q["p"])])
+        if len(ma["rxns"]) != len(mb["rxns"]):
+            return None
+        want = {}
+        for j, q in enumerate(mb["rxns"]):
+            want.setdefault(sig(mb, q, lambda s: s), []).append(j)
+        for j, q in enumerate(ma["rxns"]):
+            lst = want.get(sig(ma, q, f))
+            if not lst:
+                return None
+            k = lst.pop(0)
+            if bip:
+                pairs.append([len(la) + j, len(lb) + k])
+    return pairs
+
+
+def group_closure(gens, n, cap=BIG_GROUP_CAP):
+    """All elements of the group generated by `gens` (permutations of range(n) as tuples); None above `cap` elements."""
+    ident = tuple(range(n))
+    seen, todo = {ident}, [ident]
+    while todo:
+        h = todo.pop()
+        for g in gens:
+            x = tuple(g[h[v]] for v in range(n))
+            if x not in seen:
+                seen.add(x); todo.append(x)
+                if len(seen) > cap:
+                    return None
+    return seen
+
+
+def stable_cells(vg, cfg, fixed=()):
+    """Cells of the coarsest stable colouring of the view (colour refinement on the selected node keys, over in- and out-arcs with the
+    selected arc keys), the nodes of `fixed` individualised.  Every self-map of the view that preserves the selected keys and fixes
+    `fixed` pointwise maps each cell onto itself."""
+    ids = [n for n, _ in vg["nodes"]]
+    first = {n: (json.dumps([_kval(a, k) for k in cfg["nk"]], sort_keys=True), fixed.index(n) if n in fixed else -1) for n, a in vg["nodes"]}
+    pal = {s: i for i, s in enumerate(sorted(set(first.values())))}
+    col = {n: pal[first[n]] for n in ids}
+    ins, outs = {n: [] for n in ids}, {n: [] for n in ids}
+    for u, v, a in vg["edges"]:
+        ak = json.dumps([_kval(a, k) for k in cfg["ek"]], sort_keys=True)
+        outs[u].append((v, ak)); ins[v].append((u, ak))
+    while True:
+        sig = {n: (col[n], tuple(sorted((col[u], ak) for u, ak in ins[n])), tuple(sorted((col[w], ak) for w, ak in outs[n]))) for n in ids}
+        pal2 = {s: i for i, s in enumerate(sorted(set(sig.values())))}
+        done = len(pal2) == len(pal)
+        pal, col = pal2, {n: pal2[sig[n]] for n in ids}
+        if done:
+            break
+    cells = {}
+    for n in ids:
+        cells.setdefault(col[n], []).append(n)
+    return sorted(sorted(c) for c in cells.values())
+
+
+def aut_upper_bound(vg, cfg, rounds=12):
+    """(U, root cells): |Aut| <= U along a stabiliser chain (|Aut| = prod of the orbit sizes of the base points under the successive
+    point stabilisers, each orbit lies inside the base point's cell of the stable colouring with the earlier base points individualised;
+    the chain ends when the colouring is discrete: the remaining stabiliser is trivial).  Every orbit lies inside a root cell."""
+    fixed, U, root = [], 1, None
+    for _ in range(rounds):
+        cells = stable_cells(vg, cfg, tuple(fixed))
+        root = cells if root is None else root
+        multi = [c for c in cells if len(c) > 1]
+        if not multi:
+            return U, root
+        c = min(multi, key=lambda c: (len(c), c[0]))
+        U *= len(c)
+        fixed.append(c[0])
+    return None, root
+
+
+def iso_invariant(g, cfg):
+    """An isomorphism invariant of a graph on the selected keys (one round of colour refinement, as a sorted multiset): two graphs
+    with different invariants are not isomorphic."""
+    ins, outs = {n: [] for n, _ in g["nodes"]}, {n: [] for n, _ in g["nodes"]}
+    for u, v, a in g["edges"]:
+        ak = json.dumps([_kval(a, k) for k in cfg["ek"]], sort_keys=True)
+        if u not in outs or v not in ins:
+            return "arc between unknown nodes"
+        outs[u].append(ak); ins[v].append(ak)
+    return json.dumps(sorted([json.dumps([_kval(a, k) for k in cfg["nk"]], sort_keys=True), sorted(ins[n]), sorted(outs[n])] for n, a in g["nodes"]))
+
+
+BIG_VF2_PATIENCE = 600.0  # seconds; the VF2 analyser answers within ~10 s on the families it is asked about
+
+
+class _BigGaveUp(Exception):
+    pass
+
+
+def impl_big(net, cfg, opts):
+    """One large network under one configuration: one `summary()` per analyser (plus `orbits()` / a second `summary()` of the same
+    canonicaliser object when `again`), the VF2 analyser only when `vf2`."""
+    from synkit.CRN.Topo.canon import CRNCanonicalizer
+    from synkit.CRN.Topo.wl_canon import WLCanonicalizer
+
+    H = build(net)
+    mnet = model_net(H)
+    labels, eids = mnet["labels"], [r["id"] for r in mnet["rxns"]]
+    names = {s: i for i, s in enumerate(labels)}
+    if cfg["bip"]:
+        for j, e in enumerate(eids):
+            names[e] = len(labels) + j
+    res = {"mnet": mnet, "errors": {}, "collision": sorted(set(labels) & set(eids))}
+    kw = ctor_kw(cfg)
+    ek = tuple(cfg["ek"])
+
+    def name(x):
+        return names[x]
+
+    def some(ms):
+        """first two, last: enough for the Lean spot check (every map is also tested for membership in the planted group)"""
+        return [ms[i] for i in sorted({0, 1, len(ms) - 1} & set(range(len(ms))))]
+
+    try:
+        cz = CRNCanonicalizer(H, edge_attr_keys=ek, **kw)
+        G = cz.G
+        res["n_nodes"] = G.number_of_nodes()
+        if cfg.get("int") and cfg["bip"]:
+            names = int_id_names(G, mnet, cfg)
+            res["id_types"] = sorted({type(v).__name__ for v in G.nodes()})
+        res["G"] = enc_graph(G, name)
+        s = cz.summary()
+        maps = [mapping_list(m, name) for m in s["mappings"][:BIG_GROUP_CAP]]
+        res["canon"] = {"graph": enc_graph(s["canon_graph"], int), "perm": [name(v) for v in s["canonical_perm"]], "count": int(s["automorphism_count"]),
+                        "orbits_raw": [sorted(name(x) for x in o) for o in s["orbits"]], "maps": maps, "maps_some": some(maps), "early": bool(s["early_stop"])}
+        if opts.get("again"):
+            res["canon"]["orbits_method"] = [sorted(name(x) for x in o) for o in cz.orbits()]
+            s2 = cz.summary()
+            res["canon"]["repeat"] = {"graph": enc_graph(s2["canon_graph"], int), "count": int(s2["automorphism_count"]), "orbits_raw": [sorted(name(x) for x in o) for o in s2["orbits"]]}
+    except Exception as e:  # noqa: BLE001 - any exception is an observable of the check
+        res["errors"]["canon"] = f"{type(e).__name__}: {e}"[:300]
+    if "G" not in res:
+        return res
+    if opts.get("vf2"):
+        try:
+            a, res["vf2_edge_keys"] = make_vf2(H, cfg, kw)
+            r = a.summary(max_count=10 ** 7, timeout_sec=BIG_VF2_PATIENCE)
+            if r["stopped_early"]:  # a legal answer under a time limit; nothing is gated on it (and the run does not hang on a node order VF2 cannot cope with)
+                raise _BigGaveUp()
+            maps = [mapping_list(m, name) for m in r["sample_mappings"][:BIG_GROUP_CAP]]
+            res["vf2"] = {"count": int(r["automorphism_count"]), "orbits_raw": [sorted(name(x) for x in o) for o in r["orbits"]], "maps": maps, "maps_some": some(maps),
+                          "stopped": bool(r["stopped_early"]), "used": int(r["mapping_count_used"])}
+            if opts.get("again"):
+                res["vf2"]["orbits_method"] = [sorted(name(x) for x in o) for o in a.orbits(max_count=10 ** 7, timeout_sec=10 ** 6)]
+        except _BigGaveUp:
+            res["vf2_gave_up"] = True
+        except Exception as e:  # noqa: BLE001
+            res["errors"]["vf2"] = f"{type(e).__name__}: {e}"[:300]
+    try:
+        w = WLCanonicalizer(H, edge_attr_keys=ek, **kw).summary()
+        res["wl"] = {"graph": enc_graph(w["canon_graph"], int)}
+        try:  # a candidate certificate (the order the documented relabelling uses); Lean decides whether it certifies anything
+            col = w["colors"]
+            res["wl"]["order"] = [name(v) for v in sorted(G.nodes(), key=lambda v: (col[v], str(v)))]
+        except Exception:  # noqa: BLE001
+            pass
+    except Exception as e:  # noqa: BLE001
+        res["errors"]["wl"] = f"{type(e).__name__}: {e}"[:300]
+    return res
+
+
+def _job_big(a):
+    return impl_big(a[0], CFG[a[1]], a[2])
+
+
+def pmap_big(args):
+    global _POOL
+    if len(args) < 3:
+        return [_job_big(a) for a in args]
+    if _POOL is None:
+        import multiprocessing as mp
+        _POOL = mp.get_context("fork").Pool(8)
+    return _POOL.map(_job_big, args, chunksize=1)
+
+
+def evaluate_big(ctx, fams, tag):
+    """Views of >= 258 nodes (positions, integer node ids, ... beyond CPython's small-int cache).  The enumerating Lean engine is
+    exponential on long chains (crn.analyse / crn.iso need 30 s at 42 nodes), so the networks carry a PLANTED symmetry group and Lean only
+    checks certificates, each in time linear or quadratic in the view:
+      crn.view       the model's view of the store content (gate 0: the back-end's graph equals it);
+      crn.checkMaps  every planted generator is a structure-preserving self-map of that view (so is every element of the generated
+                     group: automorphism count >= its order, every planted class lies inside an orbit); a sample of the reported
+                     mappings; the planted bijection between the views of two family members (so they are isomorphic);
+      crn.canonBy    canonical_perm lists every node once and the reported canonical graph is the view relabelled along it (hence
+                     isomorphic to it: canon_faithful).
+    The upper bounds come from colour refinement of the model's view (harness side, `aut_upper_bound`): count <= U, every orbit inside
+    a root cell.  Where the two bounds meet (they do on every family generated here; counter big:certified) count and orbit partition
+    are determined; the gates are the two-sided bounds, so they are sound wherever they fire.  Non-isomorphic members are decided by an
+    invariant (`iso_invariant`), pairs decided neither way are counted and not gated."""
+    import time
+    t0 = time.time()
+    L = ctx.lean()
+    jobs = [(fi, ni, cn) for fi, f in enumerate(fams) for ni in range(len(f["nets"])) for cn in f["configs"]]
+    results = pmap_big([(fams[fi]["nets"][ni], cn, {"vf2": bool(fams[fi].get("vf2")), "again": bool(fams[fi].get("again")) and ni == 0}) for fi, ni, cn in jobs])
+    items = [(fi, ni, cn, r) for (fi, ni, cn), r in zip(jobs, results)]
+    views = L.ok([{"cmd": "crn.view", "net": r["mnet"], "bip": CFG[cn]["bip"], "stoich": CFG[cn]["stoich"]} for _, _, cn, r in items], shards=8)
+    index = {(fi, ni, cn): k for k, (fi, ni, cn, _) in enumerate(items)}
+
+    def member_gens(fi, ni):
+        f = fams[fi]
+        m = f["maps"][ni]
+        if m is None:
+            return f["gens"]
+        return [{m.get(a, a): m.get(b, b) for a, b in g.items()} for g in f["gens"]]
+
+    reqs, slots, planted = [], [], {}
+    for k, (fi, ni, cn, r) in enumerate(items):
+        cfg, vg = CFG[cn], views[k]["graph"]
+        gens = [node_map(r["mnet"], r["mnet"], g, cfg["bip"], with_coef=cfg["stoich"]) for g in member_gens(fi, ni)]
+        ctx.count("big:planted_generators_not_applicable_to_this_member", sum(1 for g in gens if g is None))
+        gens = [g for g in gens if g is not None]
+        planted[k] = gens
+        if gens:
+            reqs.append({"cmd": "crn.checkMaps", "host": vg, "pattern": vg, "maps": gens, **sel(cfg)}); slots.append((k, "gens"))
+        if "canon" in r:
+            reqs.append({"cmd": "crn.canonBy", "graph": vg, "perm": r["canon"]["perm"]}); slots.append((k, "canonBy"))
+            reqs.append({"cmd": "crn.checkMaps", "host": vg, "pattern": vg, "maps": r["canon"]["maps_some"], **sel(cfg)}); slots.append((k, "canon_maps_ok"))
+        if "vf2" in r:
+            reqs.append({"cmd": "crn.checkMaps", "host": vg, "pattern": vg, "maps": r["vf2"]["maps_some"], **sel(cfg)}); slots.append((k, "vf2_maps_ok"))
+        if "wl" in r and "order" in r["wl"]:
+            reqs.append({"cmd": "crn.canonBy", "graph": vg, "perm": r["wl"]["order"]}); slots.append((k, "wl_by"))
+    pairs = []
+    for fi, f in enumerate(fams):
+        for cn in f["configs"]:
+            for j in range(1, len(f["nets"])):
+                k0, kj = index[(fi, 0, cn)], index[(fi, j, cn)]
+                pm = node_map(items[k0][3]["mnet"], items[kj][3]["mnet"], f["maps"][j] or {}, CFG[cn]["bip"], with_coef=CFG[cn]["stoich"])
+                pairs.append((fi, cn, j, k0, kj, pm))
+                if pm is not None:
+                    reqs.append({"cmd": "crn.checkMaps", "host": views[kj]["graph"], "pattern": views[k0]["graph"], "maps": [pm], **sel(CFG[cn])})
+                    slots.append((len(pairs) - 1, "pair"))
+    answers = L.ok(reqs, shards=8)
+    lean, pair_cert = [dict() for _ in items], {}
+    for (k, what), ans in zip(slots, answers):
+        if what == "pair":
+            pair_cert[k] = bool(ans and all(ans))
+        else:
+            lean[k][what] = ans
+
+    seen = getattr(ctx, "_c18_seen", None)
+    if seen is None:
+        seen = ctx._c18_seen = {}
+    uncertified = []
+
+    def report(what, fi, members, cn, detail):
+        f = fams[fi]
+        key = (what, ("big",))
+        seen[key] = seen.get(key, 0) + 1
+        if seen[key] > 3:
+            ctx.count("further_violations_not_listed:" + what)
+            return
+        case = {"kind": "big", "family": f["family"], "config": cn, "nets": [f["nets"][m] for m in members], "gens": member_gens(fi, members[0]),
+                "maps": [None] + [f["maps"][m] for m in members[1:]], "vf2": bool(f.get("vf2")), "again": bool(f.get("again"))}
+        ctx.violation(what, case, {"stream": tag, "family": f["family"], **detail})
+
+    for k, (fi, ni, cn, r) in enumerate(items):
+        cfg, view, lk = CFG[cn], views[k], lean[k]
+        vg = view["graph"]
+        ids = [n for n, _ in vg["nodes"]]
+        n_nodes = len(ids)
+        ctx.count(f"big:config:{cn}")
+        ctx.count(f"big:family:{fams[fi]['family']}")
+        ctx.count("big:view_nodes:" + ("<258" if n_nodes < BIG_MIN_NODES else "258-300" if n_nodes <= 300 else ">300"))
+        if "id_types" in r:
+            ctx.count("big:node_id_types:" + ",".join(r["id_types"]))
+        if r.get("vf2_gave_up"):
+            ctx.count("big:vf2_no_answer_within_patience(not gated)")
+        ctx.case(["big", r["mnet"], cn], nontrivial=(n_nodes >= 3 and len(vg["edges"]) >= 2))
+        for where, msg in r["errors"].items():
+            report(f"{where} raised an exception", fi, [ni], cn, {"error": msg, "view_nodes": n_nodes})
+        if not view["wf"] or not view["wfd"] or r["collision"]:
+            ctx.violation("model precondition: generated network / view not well formed", {"kind": "big", "family": fams[fi]["family"], "config": cn}, no_input=True)
+            continue
+        if "G" not in r:
+            continue
+        if norm_graph(r["G"]) != norm_graph(vg):
+            a, b = norm_graph(r["G"]), norm_graph(vg)
+            report("view built by the back-end differs from the network's view (nodes / arcs / attributes)", fi, [ni], cn,
+                   {"view_nodes": n_nodes, "nodes_only_impl": short([x for x in a[0] if x not in set(b[0])][:5]), "nodes_only_model": short([x for x in b[0] if x not in set(a[0])][:5]),
+                    "arcs_only_impl": short([x for x in a[1] if x not in set(b[1])][:5]), "arcs_only_model": short([x for x in b[1] if x not in set(a[1])][:5])})
+            continue
+        # the planted group and the two bounds
+        verdicts = lk.get("gens", [])
+        ctx.count("big:planted_generators_rejected_by_lean", sum(1 for ok in verdicts if not ok))
+        gens = [g for g, ok in zip(planted[k], verdicts) if ok]  # candidates: only those Lean found to be self-maps of the model's view are used
+        pos = {n: i for i, n in enumerate(ids)}
+        perms = []
+        for g in gens:
+            d = {p: h for p, h in g}
+            perms.append(tuple(pos[d[n]] for n in ids))
+        group = group_closure(perms, n_nodes)
+        U, root = aut_upper_bound(vg, cfg)
+        lower = len(group) if group is not None else None
+        parent = list(range(n_nodes))  # planted classes: orbits of the generated group = components of v ~ g(v)
+
+        def top(i):
+            while parent[i] != i:
+                parent[i] = parent[parent[i]]
+                i = parent[i]
+            return i
+        for p in perms:
+            for i, j in enumerate(p):
+                a, b = top(i), top(j)
+                if a != b:
+                    parent[max(a, b)] = min(a, b)
+        pl = {}
+        for i, n in enumerate(ids):
+            pl.setdefault(top(i), []).append(n)
+        planted_classes = sorted(sorted(c) for c in pl.values())
+        cell_of = {n: i for i, c in enumerate(root) for n in c}
+        certified = lower is not None and U == lower and sorted(root) == planted_classes
+        ctx.count("big:certified(planted group order = refinement bound, planted classes = root cells):" + str(certified))
+        edited = fams[fi]["maps"][ni] == {}  # a near miss: the planted group of the original need not be the whole group any more
+        if not certified:
+            ctx.count(f"big:uncertified:{fams[fi]['family']}:{'near-miss' if edited else 'original-or-renamed'}:{cn}")
+            if not edited:
+                uncertified.append({"family": fams[fi]["family"], "config": cn, "member": ni, "planted_group_order": lower, "refinement_bound": U})
+        ctx.count("big:aut_count:" + ("?" if lower is None else "1" if lower == 1 else "2" if lower == 2 else "3-24" if lower <= 24 else ">24"))
+        group_maps = None if group is None else {json.dumps(sorted([ids[i], ids[p[i]]] for i in range(n_nodes))) for p in group}
+        bounds = {"at_least (order of the planted group, generators checked by Lean)": lower, "at_most (stabiliser chain of the colour refinement)": U, "view_nodes": n_nodes}
+
+        def label_of(n, m=r["mnet"]):
+            """store name of a model node id (species label / reaction id)"""
+            return m["labels"][n] if n < len(m["labels"]) else m["rxns"][n - len(m["labels"])]["id"]
+
+        def check(who, a, maps_ok):
+            if lower is not None and (a["count"] < lower or (U is not None and a["count"] > U)):
+                report(f"{who}: automorphism count differs from the number of structure-preserving self-maps of the view", fi, [ni], cn, {"impl": a["count"], **bounds})
+            if maps_ok is not None and not all(maps_ok):
+                report(f"{who}: a reported mapping is not a structure-preserving self-map of the view", fi, [ni], cn, {"verdicts": maps_ok, "mappings": short(a["maps_some"], 1500)})
+            if len({json.dumps(m) for m in a["maps"]}) != len(a["maps"]) or (certified and group_maps is not None and (
+                    any(json.dumps(m) not in group_maps for m in a["maps"]) or len(a["maps"]) != min(a["count"], BIG_GROUP_CAP))):
+                report(f"{who}: reported mappings are not exactly the structure-preserving self-maps", fi, [ni], cn,
+                       {"reported": len(a["maps"]), "distinct": len({json.dumps(m) for m in a["maps"]}), "count": a["count"], **bounds})
+            for field in ("orbits_raw", "orbits_method"):
+                if field not in a:
+                    continue
+                orbs = a[field]
+                if not is_partition(orbs, ids):
+                    flat = [x for c in orbs for x in c]
+                    missing = sorted(set(ids) - set(flat))
+                    report(f"{who}: reported orbits are not a partition of the nodes (repeated / overlapping / missing class)", fi, [ni], cn,
+                           {"source": field, "view_nodes": n_nodes, "nodes_in_no_class": [label_of(x) for x in missing[:20]], "n_missing": len(missing), "n_classes": len(orbs), "empty_classes": sum(1 for c in orbs if not c),
+                            "listed_twice": [label_of(x) for x in sorted({x for x in flat if flat.count(x) > 1})[:20] if x in pos], "canonical_positions_of_missing": sorted(a["perm"].index(x) for x in missing if x in a.get("perm", []))[:20]})
+                    continue
+                where = {x: i for i, c in enumerate(orbs) for x in c}
+                split = [c for c in planted_classes if len({where[x] for x in c}) != 1]
+                wide = [c for c in orbs if len({cell_of[x] for x in c}) != 1]
+                if split or wide:
+                    report(f"{who}: reported orbits differ from the classes of nodes exchangeable by automorphisms", fi, [ni], cn,
+                           {"source": field, "exchangeable_nodes_reported_in_different_classes": short(split[:5]), "reported_classes_holding_nodes_no_self_map_exchanges": short(wide[:5]), "certified": certified})
+
+        c = r.get("canon")
+        if c is not None:
+            if c["early"]:
+                report("canonicaliser reports early_stop without limits", fi, [ni], cn, {})
+            cb = lk["canonBy"]
+            ids_ok = sorted(n for n, _ in c["graph"]["nodes"]) == list(range(1, n_nodes + 1))
+            if not cb["is_order"] or not ids_ok:
+                dup = sorted({x for x in c["perm"] if c["perm"].count(x) > 1})
+                report("canonical permutation does not list every node exactly once (canonical ids are not 1..N)", fi, [ni], cn,
+                       {"view_nodes": n_nodes, "perm_length": len(c["perm"]), "listed_twice": dup[:10], "not_listed": sorted(set(ids) - set(c["perm"]))[:10], "canon_ids_ok": ids_ok})
+            elif norm_graph(cb["graph"]) != norm_graph(c["graph"]):
+                a, b = norm_graph(c["graph"]), norm_graph(cb["graph"])
+                if iso_invariant(c["graph"], cfg) != iso_invariant(vg, cfg):
+                    report("canonical graph is not isomorphic to the view it was computed from", fi, [ni], cn, {"view_nodes": n_nodes, "decided_by": "degree / attribute invariant differs"})
+                else:
+                    report("canonical graph is not the view relabelled along canonical_perm", fi, [ni], cn,
+                           {"view_nodes": n_nodes, "arcs_only_impl": short([x for x in a[1] if x not in set(b[1])][:5]), "arcs_only_model": short([x for x in b[1] if x not in set(a[1])][:5]),
+                            "nodes_only_impl": short([x for x in a[0] if x not in set(b[0])][:5])})
+            check("CRNCanonicalizer", c, lk.get("canon_maps_ok"))
+            rep = c.get("repeat")
+            if rep is not None and (key_graph(rep["graph"], cfg) != key_graph(c["graph"], cfg) or rep["count"] != c["count"] or sorted(rep["orbits_raw"]) != sorted(c["orbits_raw"])):
+                report("the same network canonicalised twice in one process receives different canonical graphs / counts", fi, [ni], cn,
+                       {"count": [c["count"], rep["count"]], "n_orbits": [len(c["orbits_raw"]), len(rep["orbits_raw"])], "same_graph": key_graph(rep["graph"], cfg) == key_graph(c["graph"], cfg)})
+        v = r.get("vf2")
+        if v is not None:
+            if v["stopped"] or v["used"] != v["count"]:
+                report("CRNAutomorphism: enumeration stopped early / counts inconsistent without limits", fi, [ni], cn, {k2: v[k2] for k2 in ("stopped", "used", "count")})
+            check("CRNAutomorphism", v, lk.get("vf2_maps_ok"))
+        w = r.get("wl")
+        if w is not None:
+            wb = lk.get("wl_by")
+            if wb is not None and wb["is_order"] and norm_graph(wb["graph"]) == norm_graph(w["graph"]):
+                ctx.count("big:wl_graph:certified_isomorphic")
+            elif sorted(n for n, _ in w["graph"]["nodes"]) != list(range(1, n_nodes + 1)) or iso_invariant(w["graph"], cfg) != iso_invariant(vg, cfg):
+                report("WL canonical graph is not isomorphic to the view it was computed from", fi, [ni], cn, {"view_nodes": n_nodes, "decided_by": "canonical ids / degree and attribute invariant differ"})
+            else:
+                ctx.count("big:wl_graph:undecided(no certificate, invariants agree)")
+    # kernel agreement inside a family
+    for pk, (fi, cn, j, k0, kj, pm) in enumerate(pairs):
+        r0, rj = items[k0][3], items[kj][3]
+        if "canon" not in r0 or "canon" not in rj or "G" not in r0 or "G" not in rj:
+            continue
+        cfg = CFG[cn]
+        if iso_invariant(views[k0]["graph"], cfg) != iso_invariant(views[kj]["graph"], cfg):
+            verdict = "non-iso"
+        elif pair_cert.get(pk):
+            verdict = "iso"
+        else:
+            verdict = "undecided"
+        ctx.count(f"big:kernel_pair:{verdict}")
+        same = key_graph(r0["canon"]["graph"], cfg) == key_graph(rj["canon"]["graph"], cfg)
+        if verdict == "iso" and not same:
+            report(KERNEL_ISO_DIFFERENT, fi, [0, j], cn, {"decided_by": "planted bijection checked by Lean (crn.checkMaps)", "view_nodes": len(views[k0]["graph"]["nodes"])})
+        elif verdict == "non-iso" and same:
+            report("networks whose views are not isomorphic receive identical canonical graphs", fi, [0, j], cn, {"decided_by": "degree / attribute invariant differs"})
+    if uncertified and tag != "replay":  # the generators of this harness are meant to produce determined answers: a family whose bounds do not meet is a harness defect
+        ctx.violation("harness (stream big): planted group order and refinement bound do not meet on an original / renamed member: count and orbits only bounded there",
+                      {"kind": "big-uncertified", "cases": uncertified[:5]}, {"stream": tag}, no_input=True)
+    if hasattr(ctx, "extra"):
+        w = ctx.extra.setdefault("stream_wall_s", {})
+        w[tag] = round(w.get(tag, 0) + time.time() - t0, 1)
+
+
+def big_case_family(c):
+    """A stored big case (regress file / violation) as a family for `evaluate_big`."""
+    nets = c["nets"]
+    maps = c.get("maps") or [None] * len(nets)
+    return {"family": c.get("family", "stored"), "nets": nets, "maps": [None] + [m or {} for m in maps[1:]], "gens": c.get("gens", []),
+            "configs": [c["config"]] if "config" in c else c["configs"], "vf2": bool(c.get("vf2")), "again": bool(c.get("again"))}
+
+
+# small views with numbers beyond the small-int cache elsewhere: more than 256 automorphisms (positions in the list of least-label
+# leaves / of VF2 mappings), coefficients > 256 given as pairwise different int objects of equal value.  Small enough for the full model.
+BIG_COEFS = [257, 300, 1000, 65536, 10 ** 12]
+
+
+def many_automorphism_nets():
+    L = "ABCDEFGH"
+    return [("one-reaction-6-products(720)", {"rxns": [rx([("A", 1)], [(L[i], 1) for i in range(1, 7)])]}, ["bip+stoich", "bip-stoich/int-ids"]),
+            ("star-out-6(720)", {"rxns": [rx([("A", 1)], [(L[i], 1)]) for i in range(1, 7)]}, ["species+stoich", "species-stoich"]),
+            ("3x3-with-coefficient-300(36)", {"rxns": [rx([("A", 300), ("B", 300), ("C", 300)], [("D", 1), ("E", 1), ("F", 1)]), rx([("A", 300)], [("G", 1)]), rx([("B", 300)], [("G", 1)]), rx([("C", 300)], [("G", 1)])]},
+             ["bip+stoich", "species+stoich"])]
+
+
+def big_coefficient_net(rnd):
+    """A random network whose coefficients >= 2 are replaced by numbers beyond the small-int cache; equal coefficients are
+    DIFFERENT int objects (as they are when a network is parsed from text)."""
+    net = random_net(rnd, max_species=5, max_rxns=4)
+    m = {c: rnd.choice(BIG_COEFS) for c in (2, 3)}
+    if rnd.random() < 0.4:
+        m[1] = rnd.choice(BIG_COEFS)
+    for q in net["rxns"]:
+        for side in ("r", "p"):
+            q[side] = [[s, int(str(m.get(c, c)))] for s, c in q[side]]
+    return net
+
+
+
 # ---------------------------------------------------------------- entry points
 ALL = [c["name"] for c in CONFIGS]
 
@@ -2124,6 +2762,9 @@ def run(ctx):
         "equality of the final order only where the two orders provably coincide (single-type values, no rendering a proper prefix of another, e.g. coefficients <= 9)",
         "the ticking clock used for the reached-time-limit calls shadows the name `time` inside synkit.CRN.Topo.canon / synkit.CRN.Topo.automorphism only (their clock readings: "
         "_search's timeout test, _should_stop, elapsed_seconds); if a tree reads its clock another way the limits are not reached and the calls are ordinary ones",
+        "large views (stream `big`): the upper bounds on the automorphism count and on the orbits come from a colour refinement of the MODEL's view computed by this harness "
+        "(stable_cells / aut_upper_bound: |Aut| <= product of cell sizes along a stabiliser chain, orbits inside root cells), the lower bounds from planted generators that Lean checks "
+        "(crn.checkMaps); non-isomorphism of two large views is decided by a harness-side invariant (multiset of node keys with sorted in-/out-arc keys); isomorphism only by a Lean-checked bijection",
         "NetworkX DiGraphMatcher (CRNAutomorphism) and the WL helper are not modelled: their outputs are gated against the proven specification "
         "(count, mapping set, orbit partition, faithfulness, kernel agreement) on every generated case, as are the outputs of the IR search",
     ]
@@ -2177,18 +2818,27 @@ def run(ctx):
         "(timeout_sec 0.5, 2.5; orbits 1.5) - counters api:*[ticking clock]:*, api:*[limited]:*, api:limited_iter:*. Stream `dict-keys`: every non-empty symmetric family with 2 renamed copies under the "
         "3 configurations CONFIGS_D (arc keys stoich_r_map+stoich_p_map / via+stoich_r_map / via on the species view), 30 / 400 random networks (<=5 species, <=4 reactions) with 2 renamed copies and a near miss under 2 of "
         "the 3, every third symmetric family under one of them with the public-surface calls (`@api`). "
+        "Stream `big` (views of 258..266 nodes, planted symmetry; Lean checks certificates only): quick 6 families (pathway with 2 / 3 end products, twin side products at 3 steps, two chains on "
+        "a hub, broom with one repeated chain length, spokes with distinct coefficients >= 200 and 2 equal ones), each [network, renamed copy] (+ a one-coefficient near miss for two of them) under one "
+        "configuration drawn from 3 species / 6 bipartite configurations (string and integer node ids, stoichiometry on / off, permuted keys, role only); thorough: the first five families under all 9 configurations "
+        "with 1..2 renamed copies and near misses, spokes under the 3 bipartite configurations with stoichiometry, one pathway of 518 nodes; the VF2 analyser where it answers within seconds. "
+        "Stream `beyond-small-int-cache` (full model): 3 networks with 720 / 36 automorphisms and 40 / 400 random networks (<= 5 species, <= 4 reactions) whose coefficients >= 2 are replaced by "
+        "257 / 300 / 1000 / 65536 / 10**12 (fresh int objects), with 2 renamed copies and a near miss, under 3 of 11 configurations. "
         "IR correspondence stream (last): regression corpus, every symmetric family (all 7 configurations) with a renamed copy, F19 networks, 2..3 disjoint identical components of small "
         "fixed / random networks (search trees of depth >= 2), rings with coefficients 10 / 2 and a 12-vs-3 network (label strings order differently from structured labels), exhaustive "
         "3-species networks (sampled in quick), random networks (half of them renamed), each under 2..7 configurations; per graph 2 probe partitions (unit / one cell of the refined "
         "partition individualised / random cells) for _refine and 2 random (node, partition) for _sig.")
-    ctx.nontrivial_rule = ("(store content, configuration) distinct as a JSON value; the view has >= 3 nodes and >= 2 arcs "
+    ctx.nontrivial_rule = ("(store content, configuration) distinct as a JSON value; the view has >= 3 nodes and >= 2 arcs (stream big: the same, tagged) "
                            "(IR stream: (graph as built by the back-end with interned ids, configuration) distinct; same size rule)")
     build_and_audit(ctx, ["SynKitProofs.Props.C18"], "SynKitProofs/Audit/C18.lean", THEOREMS)
     rnd = ctx.rnd
 
     reg = load_regress()
     for case in reg:
-        evaluate(ctx, [(case["nets"], case.get("configs", ALL))], "regress", shrink=False)
+        if case.get("kind") == "big":
+            continue  # large views: evaluated first in the stream `big` below (one pool call for all large cases)
+        else:
+            evaluate(ctx, [(case["nets"], case.get("configs", ALL))], "regress", shrink=False)
     ctx.count("regress_cases", len(reg))
 
     # symmetric families
@@ -2222,6 +2872,29 @@ def run(ctx):
 
     # integer node ids on the F19 networks: no id collision is possible there, every gate applies
     evaluate(ctx, [([n, rename_net(n, rnd)], [c for c in ICFG if CFG[c]["bip"]]) for n in f19_nets()], "f19-integer-ids")
+
+    # sizes beyond CPython's small-int cache (`is` vs `==` on ints differs only above 256).  (a) views of >= 258 nodes with a planted
+    # symmetry group: Lean checks certificates only (see `evaluate_big`); (b) small views with more than 256 automorphisms and with
+    # coefficients > 256 (equal coefficients as different int objects): the full model
+    bigs = [dict(big_case_family(c), family="regress/" + c.get("family", "stored")) for c in reg if c.get("kind") == "big"] + big_families(rnd, ctx.quick)
+    ctx.count("families:big", len(bigs))
+    for b in batches(bigs, 12):
+        if len(ctx.violations) < 20:
+            evaluate_big(ctx, b, "big")
+    fams = []
+    for name, net, cfgs in many_automorphism_nets():
+        fams.append(([net, rename_net(net, rnd, ids=rnd.choice(["regen", "explicit"]))], [rnd.choice(cfgs)] if ctx.quick else cfgs))
+    for _ in range(40 if ctx.quick else 400):
+        net = big_coefficient_net(rnd)
+        members = [net, rename_net(net, rnd), rename_net(net, rnd, keep_labels=True, ids=rnd.choice(["regen", "explicit"]))]
+        nm = near_miss(net, rnd)
+        if nm:
+            members.append(nm[0])
+        fams.append((members, rnd.sample(ALL + XCFG + ICFG, 3)))
+    ctx.count("families:beyond-small-int-cache", len(fams))
+    for b in batches(fams, 100):
+        if len(ctx.violations) < 20:
+            evaluate(ctx, b, "beyond-small-int-cache")
 
     # the rest of the public surface (limits that are not reached, default and tight limits, functional wrappers, single-purpose
     # methods, key selections as lists, WL option sets) under every configuration: symmetric families, then random networks
@@ -2354,6 +3027,9 @@ def run(ctx):
 
 def replay(ctx, case):
     c = case["case"]
+    if c.get("kind") == "big":
+        evaluate_big(ctx, [big_case_family(c)], "replay")
+        return
     cfgs = [c["config"]] if "config" in c else c.get("configs", ALL)
     evaluate(ctx, [(c["nets"], cfgs)], "replay", shrink=False)
     if c.get("kind") == "ir" or str((case.get("detail") or {}).get("stream", "")).startswith("ir"):
